@@ -8,6 +8,7 @@ package main
 //     blocks are mined; everything returned must be pairwise disjoint while held.
 
 import (
+	"encoding/json"
 	"fmt"
 	"go/ast"
 	"go/parser"
@@ -141,10 +142,60 @@ type held struct {
 	what     string
 }
 
+// soak runs the concurrent part in a child process: an unsynchronised map
+// access is a fatal error of the Go runtime that cannot be recovered, and has
+// to be reported as a failure rather than lose the whole run.
 func soak(c *hx.Ctx) {
-	if os.Getenv("C07_SOAK_ONLY") == "" && c.Thorough {
+	if os.Getenv("C07_SOAK_ONLY") != "" {
+		soakHere(c)
+		return
+	}
+	if c.Thorough {
 		raceSoak(c)
 	}
+	sub := filepath.Join(c.Res.Dir(), "soak")
+	tier := "quick"
+	if c.Thorough {
+		tier = "thorough"
+	}
+	run := exec.Command(os.Args[0], "-seed", fmt.Sprint(c.Seed), "-tier", tier, "-out", sub)
+	run.Env = append(os.Environ(), "C07_SOAK_ONLY=1")
+	out, err := run.CombinedOutput()
+	var child struct {
+		Failures []struct {
+			Kind, Detail string
+			Replay       string
+		} `json:"failures"`
+		Distribution map[string]int `json:"distribution"`
+		Notes        []string       `json:"notes"`
+	}
+	b, rerr := os.ReadFile(filepath.Join(sub, "result.json"))
+	if rerr == nil {
+		rerr = json.Unmarshal(b, &child)
+	}
+	if err != nil || rerr != nil {
+		s := string(out)
+		if i := strings.Index(s, "fatal error"); i >= 0 {
+			s = s[i:]
+		}
+		if len(s) > 1500 {
+			s = s[:1500]
+		}
+		c.Res.Fail("concurrent-calls-crash", fmt.Sprintf("the process running concurrent Fund*/Redistribute/SplitUTXO/ReleaseInputs calls died (%v): %s", err, s), map[string]any{"soak": true, "seed": c.Seed})
+		return
+	}
+	for _, f := range child.Failures {
+		c.Res.Fail(f.Kind, f.Detail, map[string]any{"soak": true, "seed": c.Seed, "child_replay": f.Replay})
+	}
+	for k, v := range child.Distribution {
+		if strings.HasPrefix(k, "soak:") {
+			c.Res.CountN(k, v)
+		}
+	}
+	c.Res.Notes = append(c.Res.Notes, child.Notes...)
+}
+
+func soakHere(c *hx.Ctx) {
 	G, per := c.Scale(8, 32), c.Scale(120, 1500)
 	r := c.R.Fork()
 	spec := caseSpec{Name: "soak", Cfg: cfgSpec{Thresh: 3, MaxIn: 10, MaxDefrag: 3}}
